@@ -581,6 +581,19 @@ func init() {
 		}
 		return ex.mkInt(-1), false
 	}
+	// ---- maps.clone (runtime linkname): shallow copy
+	I["maps.clone"] = func(ex *Exec, th *Thread, fn *ssa.Function, a []Value) (Value, bool) {
+		iv, _ := a[0].(ifaceV)
+		m, _ := iv.v.(*mapObj)
+		if m == nil {
+			return a[0], false
+		}
+		n := &mapObj{keyT: m.keyT, valT: m.valT, id: ex.fresh()}
+		for _, e := range m.entries {
+			n.entries = append(n.entries, &mapEntry{key: e.key, val: copyVal(e.val), present: e.present})
+		}
+		return ifaceV{t: iv.t, v: n}, false
+	}
 	// ---- runtime bits that interpreted std code touches
 	I["runtime.Gosched"] = func(ex *Exec, th *Thread, fn *ssa.Function, a []Value) (Value, bool) { return nil, false }
 	I["runtime.KeepAlive"] = I["runtime.Gosched"]
